@@ -59,13 +59,7 @@ func c13Rules(p *core.Prog, r *core.Run) {
 		}
 	}
 	r.Analysed(p.FuncName(mb), p.FuncName(rb), p.FuncName(dec), p.FuncName(drr), p.FuncName(dht), p.FuncName(dopt), p.FuncName(nl), p.FuncName(pad), p.FuncName(rc))
-	nb := func(fn *ssa.Function) ssa.Value {
-		for _, s := range callSites(p, []*ssa.Function{fn}, `cryptobyte\.NewBuilder`) {
-			v, _ := s.Instr.(ssa.Value)
-			return v
-		}
-		return nil
-	}
+	nb := func(fn *ssa.Function) ssa.Value { return builderRoot(p, fn) }
 	firstCursor := func(fn *ssa.Function) ssa.Value {
 		var root ssa.Value
 		var first token.Pos
